@@ -8,9 +8,13 @@ index, is logged, and raises the chosen exception INSTEAD of running iff its ind
 A program (JSON-able dict):
     mode      "fast" | "locked" | "serializable"
     timeout   transaction timeout in ticks (1 tick = 1/8 s)
-    nb        1 | 2 backends (prefix "" and "b:")
+    nb        1 | 2 | 3 backends (prefix "", "b:" and "c:")
     form      "ctx" (async with cache.transaction(...)) | "decor" (@cache.transaction(...) on a coroutine function)
-    exc       "interaction" (CacheBackendInteractionError) | "runtime" (RuntimeError) - the injected class
+    exc       "interaction" (CacheBackendInteractionError) | "runtime" (RuntimeError) - the injected Exception class
+    bkind     "cancel" (asyncio.CancelledError - what a backend command cut short by asyncio.timeout()/wait_for ends with on
+              Python >= 3.11) | "base" (a BaseException subclass of our own) - the injected class of a fault of BaseException kind
+    bexc      "exception" (default) | "cancel": what the body command `raise` raises - BodyError(Exception) or
+              BodyCancel(asyncio.CancelledError), i.e. the task is cancelled while it is inside the block
     data      [[b, k, v, ttl|None], ...]      initial store content
     flocks    [[b, lk], ...]                  lock keys held for ever by a foreign owner before the block
     body      ["set.b.k.v.ttl", "incr.b.k", "get.b.k", "del.b.k", "adv.dt", "raise",
@@ -21,7 +25,9 @@ A program (JSON-able dict):
               `set k 99` and leaves its block by raising; "commit": it deleted k (which must be absent from `data`) and
               leaves normally.  Either way its only effect on the stores is to release its lock.
 
-A case = (program, faults, rels): `faults` the victim's command indices made to raise; `rels[j]` says when holder j is
+A case = (program, faults, rels): `faults` the victim's command indices made to raise - an element is an int `i` (command i
+raises the program's Exception class) or a pair `[i, "B"]` (command i raises the program's BaseException-only class `bkind`:
+no `except Exception` handler sees it); `rels[j]` says when holder j is
 released: an int i = just before the victim's backend command number i takes effect (the victim's command is suspended
 until the holder's block has been left), or "after" = after the victim's block has been left.  Commands of the holders
 are neither counted nor faulted.  After the victim's block is left, every holder is released and awaited, and whatever
@@ -32,6 +38,7 @@ from __future__ import annotations
 import asyncio
 import contextvars
 import inspect
+import os
 
 from . import vtime
 from .vtime import BASE, CLOCK, TICK
@@ -65,8 +72,61 @@ class InjectedRuntime(RuntimeError):
         self.idx = idx
 
 
+class InjectedCancel(asyncio.CancelledError):
+    """a backend command cut short by a time limit: `asyncio.timeout()` / `wait_for` cancel the innermost await, the command
+    ends with CancelledError (a BaseException that is NOT an Exception)"""
+    def __init__(self, idx):
+        super().__init__(f"injected cancellation of backend command {idx}")
+        self.idx = idx
+
+
+class InjectedBase(BaseException):
+    def __init__(self, idx):
+        super().__init__(f"injected BaseException at backend command {idx}")
+        self.idx = idx
+
+
 class BodyError(Exception):
     pass
+
+
+class BodyCancel(asyncio.CancelledError):
+    pass
+
+
+BASE_KIND = "B"                  # marker of a fault of BaseException kind in a fault set
+
+
+def fidx(f) -> int:
+    """command index of a fault (an int, or a pair [index, "B"])"""
+    return f if isinstance(f, int) else int(f[0])
+
+
+def fbase(f) -> bool:
+    return not isinstance(f, int)
+
+
+def norm_faults(faults) -> tuple:
+    """canonical fault set: ints (Exception kind) and (i, "B") tuples (BaseException kind), ordered by index"""
+    out = []
+    for f in faults:
+        if isinstance(f, int):
+            out.append(f)
+        else:
+            if len(f) != 2 or f[1] != BASE_KIND:
+                raise ValueError(f"bad fault {f!r}")
+            out.append((int(f[0]), BASE_KIND))
+    return tuple(sorted(out, key=fidx))
+
+
+def show_faults(faults) -> list:
+    return [f if isinstance(f, int) else f"{f[0]} (BaseException)" for f in faults]
+
+
+# the loop of `Transaction._rollback` the model is asked to run: "all" = as in /repo since 12f0cbb (D36: every backend is rolled
+# back whatever fails, a BaseException is re-raised at the end).  "head" = the OLD loop (`except Exception` only: a BaseException
+# left the loop) - only through the environment variable C16_RB, for looking at a tree in which 12f0cbb is reverted.
+RB_LOOP = os.environ.get("C16_RB", "all")
 
 
 class HolderAbort(Exception):
@@ -75,14 +135,14 @@ class HolderAbort(Exception):
 
 HOLDER_TIMEOUT_S = 10.0          # lease of a holder's lock: far longer than any victim waits
 
-
 class Recorder:
     def __init__(self):
         self.on = False
         self.n = 0
         self.trace = []
-        self.faults = frozenset()
+        self.faults = {}           # command index -> True iff the fault is of BaseException kind
         self.exc_cls = InjectedInteraction
+        self.base_cls = InjectedCancel
 
         self.times = {}
         self.adv = 0              # ticks the body let pass explicitly (`adv`); any other progress of the clock is lock-steps
@@ -90,7 +150,7 @@ class Recorder:
         self.watch_late = False
         self.before_cmd = None    # async hook(idx): the environment's move just before command idx takes effect
 
-    def start(self, faults, exc_cls, before_cmd=None):
+    def start(self, faults, exc_cls, before_cmd=None, base_cls=InjectedCancel):
         self.on = True
         self.n = 0
         self.trace = []
@@ -98,8 +158,9 @@ class Recorder:
         self.adv = 0
         self.late = []
         self.watch_late = False
-        self.faults = frozenset(faults)
+        self.faults = {fidx(f): fbase(f) for f in faults}
         self.exc_cls = exc_cls
+        self.base_cls = base_cls
         self.before_cmd = before_cmd
 
 
@@ -129,7 +190,7 @@ def _make(orig, name):
             await REC.before_cmd(idx, name)
         REC.times[idx] = (CLOCK.t, REC.adv)
         if bad:
-            raise REC.exc_cls(idx)
+            raise (REC.base_cls if REC.faults[idx] else REC.exc_cls)(idx)
         tok = _DEPTH.set(1)
         try:
             return await orig(self, *args, **kwargs)
@@ -145,7 +206,7 @@ FaultyMemory = type(
 FaultyMemory.tag = -1
 register_backend("c16fault", FaultyMemory)
 
-PREFIX = ["", "b:"]
+PREFIX = ["", "b:", "c:"]
 
 
 def kname(b, k):
@@ -344,7 +405,7 @@ async def _run(prog, faults, rels):
                     CLOCK.advance(int(w[1]))
                     REC.adv += int(w[1])
                 elif w[0] == "raise":
-                    raise BodyError()
+                    raise BodyCancel() if prog.get("bexc") == "cancel" else BodyError()
                 else:
                     raise ValueError(f"unknown body command {c}")
         except BaseException:
@@ -354,7 +415,8 @@ async def _run(prog, faults, rels):
             state["body_end"] = REC.n
 
     exc_cls = InjectedRuntime if prog.get("exc") == "runtime" else InjectedInteraction
-    REC.start(faults, exc_cls, before_cmd if holders else None)
+    base_cls = InjectedBase if prog.get("bkind") == "base" else InjectedCancel
+    REC.start(faults, exc_cls, before_cmd if holders else None, base_cls)
     exc = "none"
     try:
         if prog.get("form") == "decor":
@@ -369,9 +431,11 @@ async def _run(prog, faults, rels):
         exc = f"fault:{e.idx}"
     except LockedError:
         exc = "locked"
-    except BodyError:
+    except (InjectedCancel, InjectedBase) as e:
+        exc = f"bfault:{e.idx}"
+    except (BodyError, BodyCancel):
         exc = "body"
-    except Exception as e:  # noqa: BLE001
+    except (Exception, asyncio.CancelledError) as e:  # noqa: BLE001
         exc = f"other:{type(e).__name__}"
     # ---- the victim's block has been left ------------------------------------------------------------------
     REC.on = False
@@ -456,6 +520,7 @@ async def _run(prog, faults, rels):
         "uprio": [(b, _lkidx(b, args[0])) for _, b, name, args, _, _, _ in trace if name == "unlock"],
         "unlocks_ev": {i: (b, _lkidx(b, args[0])) for i, b, name, args, _, _, _ in trace if name == "unlock"},
         "failed": [i for i, *_r in trace if _r[4]],
+        "failed_base": [i for i, *_r in trace if _r[4] and REC.faults.get(i)],
         "cmd_starts": state["starts"],
         "released_at": [st["released_at"] for st in hstate],
         "tasks_pending_after_block": pending_after,
@@ -464,7 +529,7 @@ async def _run(prog, faults, rels):
 
 
 def execute(prog, faults, rels=()):
-    return vtime.run(_run, prog, tuple(faults), tuple(rels))
+    return vtime.run(_run, prog, norm_faults(faults), tuple(rels))
 
 
 def model_line(prog, faults, uprio, rels=()) -> str:
@@ -479,7 +544,8 @@ def model_line(prog, faults, uprio, rels=()) -> str:
         f"timeout={prog['timeout']}",
         f"attempts={attempts_for(prog['timeout'] * TICK)}",
         "uprio=" + dash(f"{b}.{lk}" for b, lk in uprio),
-        "faults=" + dash(str(i) for i in sorted(faults)),
+        "faults=" + dash(f"{fidx(f)}b" if fbase(f) else str(f) for f in norm_faults(faults)),
+        f"rb={RB_LOOP}",
         "data=" + dash(f"{b}.{k}.{v}.{'-' if ttl is None else ttl}" for b, k, v, ttl in prog["data"]),
         "flocks=" + dash(f"{b}.{lk}" for b, lk in prog["flocks"]),
         "body=" + dash(prog["body"], ";"),
